@@ -77,7 +77,17 @@ def build_go(cover=False, race=False):
         flags = ["-tags", "verif"]
         if COVER:
             flags += ["-cover", "-coverpkg=github.com/gopatchy/bkl/..."]
-        r = sh(["go", "build"] + flags + ["-o", os.path.join(BIN, "bklgo"), "./cmd/bklgo"], cwd=HARNESS, env=GOENV, check=False)
+        if COVER:
+            # the coverage runtime only writes counters when the main package is instrumented, and it cannot see
+            # packages of another module: build the harness inside a scratch copy of the repository's module
+            src = os.path.join(BUILD, "cover-src")
+            sh(["rsync", "-a", "--delete", "--exclude", ".git", REPO + "/", src + "/"])
+            os.makedirs(os.path.join(src, "cmd", "zzbklgo"), exist_ok=True)
+            shutil.copyfile(os.path.join(HARNESS, "cmd", "bklgo", "main.go"), os.path.join(src, "cmd", "zzbklgo", "main.go"))
+            r = sh(["go", "build", "-tags", "verif", "-cover", "-coverpkg=./...", "-o", os.path.join(BIN, "bklgo"), "./cmd/zzbklgo"],
+                   cwd=src, env=GOENV, check=False)
+        else:
+            r = sh(["go", "build"] + flags + ["-o", os.path.join(BIN, "bklgo"), "./cmd/bklgo"], cwd=HARNESS, env=GOENV, check=False)
         if r.returncode != 0:
             fails["bklgo"] = r.stderr[-3000:]
         for extra in ("extract", "recorder"):
